@@ -6,6 +6,7 @@ import ast
 from dataclasses import dataclass, field
 from typing import Any
 
+from ..guard import fmt_table
 from ..report import Ctx
 from ..schema import Schema, load_schema
 from ..src import AnalysisError, ClassInfo, Func, norm, own_nodes, walk_no_nested
@@ -485,13 +486,34 @@ def shapes(ctx: Ctx) -> None:
         ctx.ob("C14.R3", td, "to_dict is asdict(self)", ok, "to_dict no longer returns dataclasses.asdict(self)")
 
     ff = ctx.repo.func("util", "fix_float_single_double_conversion")
-    first = [s for s in ff.node.body if not (isinstance(s, ast.Expr) and isinstance(s.value, ast.Constant))][0]
     p = ff.param_names()[0]
-    ok = False
-    if isinstance(first, ast.If) and len(first.body) == 1 and isinstance(first.body[0], ast.Return) and norm(first.body[0].value) == p:
-        t = norm(first.test)
-        ok = (f"{p} == 0" in t or f"not {p}" in t) and "isfinite" in t and " or " in t
-    ctx.ob("C14.R3", ff, "zero / inf / NaN returned unchanged before rounding", ok, "the first statement must return the value unchanged when it is 0 or not finite")
+    # truth table over {zero, finite}: the value itself is returned (before any arithmetic) iff zero or not finite
+    from ..cfg import cfg_of as _cfg_of
+    from ..guard import truth_table as _tt
+
+    gff = _cfg_of(ctx, ff)
+
+    def cl_ff(n):
+        t = n.ast
+        if isinstance(t, ast.Compare) and len(t.ops) == 1 and norm(t.left) == p and isinstance(t.comparators[0], ast.Constant) and t.comparators[0].value == 0 and isinstance(t.ops[0], (ast.Eq, ast.NotEq)):
+            return ("zero", isinstance(t.ops[0], ast.Eq))
+        if isinstance(t, ast.Name) and t.id == p:
+            return ("zero", False)
+        if isinstance(t, ast.Call) and norm(t.func).split(".")[-1] == "isfinite" and [norm(a) for a in t.args] == [p]:
+            return ("finite", True)
+        return None
+
+    same = [n for n in gff.reachable() if isinstance(n.ast, ast.Return) and n.ast.value is not None and norm(n.ast.value) == p]
+    rounded = [n for n in gff.reachable() if isinstance(n.ast, ast.Return) and n.ast.value is not None and norm(n.ast.value) != p]
+    ts = _tt(gff, ["zero", "finite"], cl_ff, same)
+    trd = _tt(gff, ["zero", "finite"], cl_ff, rounded)
+    ok = bool(same) and bool(rounded)
+    for (z, f), (may, must) in ts.items():
+        want = z or not f
+        ok = ok and may == want and (not want or must)
+    for (z, f), (may, must) in trd.items():
+        ok = ok and may == (not z and f)
+    ctx.ob("C14.R3", ff, "zero / inf / NaN returned unchanged before rounding", ok, f"unchanged: {fmt_table(['zero', 'finite'], ts)}; rounded: {fmt_table(['zero', 'finite'], trd)}")
     consts = [n.value for n in own_nodes(ff.node) if isinstance(n, ast.Constant) and isinstance(n.value, int) and not isinstance(n.value, bool)]
     ctx.ob("C14.R3", ff, "7 significant digits", 7 in consts, f"integer constants in the function: {sorted(set(consts))}")
 
@@ -522,6 +544,18 @@ def _convert_list_shape(ctx: Ctx, fn: Func) -> tuple[bool, str]:
     g = cfg_of(ctx, fn)
     params = [p for p in fn.param_names() if p not in ("cls", "self")]
     loops = [n for n in own_nodes(fn.node) if isinstance(n, ast.For)]
+    if not loops and params:
+        # second accepted idiom: a comprehension over cls.convert (None exactly on ValueError, checked above) that
+        # drops exactly the None results
+        rets = [r for r in own_nodes(fn.node) if isinstance(r, ast.Return) and isinstance(r.value, ast.ListComp)]
+        if len(rets) == 1 and len(rets[0].value.generators) == 1:
+            c = rets[0].value
+            g0 = c.generators[0]
+            if norm(g0.iter) == params[0] and isinstance(g0.target, ast.Name) and len(g0.ifs) == 1 and isinstance(g0.ifs[0], ast.Compare) and len(g0.ifs[0].ops) == 1 and isinstance(g0.ifs[0].ops[0], ast.IsNot) and isinstance(g0.ifs[0].comparators[0], ast.Constant) and g0.ifs[0].comparators[0].value is None:
+                l = g0.ifs[0].left
+                if isinstance(l, ast.NamedExpr) and norm(l.value) == f"cls.convert({g0.target.id})" and norm(c.elt) == l.target.id:
+                    return True, "comprehension over cls.convert dropping None"
+        return False, "expected one loop over the argument (or a comprehension over cls.convert dropping None)"
     if len(loops) != 1 or not params or norm(loops[0].iter) != params[0] or not isinstance(loops[0].target, ast.Name):
         return False, "expected one loop over the argument"
     lp = loops[0]
